@@ -224,7 +224,7 @@ def m_arith(op, a, b):
         assert isinstance(a, int) and isinstance(b, int) and a >= 0 and b > 0
         return a % b
     if op == '^':
-        return float(a) ** b
+        return math.pow(a, b)
     raise ValueError(op)
 
 
